@@ -5,43 +5,141 @@ After a back end has reported a failed obligation it looks for a concrete input 
 which the real code (a fresh build of the working tree, linked into replay/) disagrees
 with an executable oracle, so that the VIOLATION carries something a human can run.
 If it finds nothing the violation is still reported, ending in no-failing-input-found.
+
+How it works: replay/Cargo.toml.in is materialised as $CACHE/replay-work/Cargo.toml with
+the path dependency pointing at $VERIF_REPO/ffuzzy (the sources stay in replay/src and are
+referenced by path), built with `cargo build --release --offline` into
+$CACHE/replay-target, and run as `replay <ID> <seed> <budget>`.
+
+Command line (for humans):
+    concretise.py <ID> [quick|thorough] [seed]     run one property
+    concretise.py --selftest [seconds]             every property on the current tree
 """
-import json
 import os
-import shutil
+import re
 import subprocess
 import sys
-import tempfile
 
 sys.path.insert(0, os.path.dirname(os.path.abspath(__file__)))
 import extract
 
 VERIF = extract.VERIF
+HOOK = 'verif_after_zero_bytes'
+
+
+def _has_hook(ffuzzy):
+    """Does the tree under test carry the large-size hook (cfg a4lg_ffuzzy_verif)?"""
+    try:
+        with open(os.path.join(ffuzzy, 'src', 'internals', 'generate.rs'), encoding='utf-8', errors='replace') as fh:
+            return re.search(r'fn\s+' + HOOK + r'\b', fh.read()) is not None
+    except OSError:
+        return False
+
+
+def build(repo=None):
+    """Materialise and build the replay crate against <repo>/ffuzzy.
+
+    Returns (path of the binary or None, note)."""
+    repo = repo or extract.REPO
+    rdir = os.path.join(VERIF, 'replay')
+    template = os.path.join(rdir, 'Cargo.toml.in')
+    main_rs = os.path.join(rdir, 'src', 'main.rs')
+    if not (os.path.exists(template) and os.path.exists(main_rs)):
+        return None, 'no concretiser sources (replay/Cargo.toml.in, replay/src/main.rs)'
+    ffuzzy = os.path.abspath(os.path.join(repo, 'ffuzzy'))
+    if not os.path.exists(os.path.join(ffuzzy, 'Cargo.toml')):
+        return None, 'no crate at %s' % ffuzzy
+    work = os.path.join(extract.CACHE, 'replay-work')
+    os.makedirs(work, exist_ok=True)
+    with open(template) as fh:
+        manifest = fh.read().replace('@FFUZZY_PATH@', ffuzzy).replace('@SRC_MAIN@', main_rs)
+    mpath = os.path.join(work, 'Cargo.toml')
+    old = None
+    if os.path.exists(mpath):
+        with open(mpath) as fh:
+            old = fh.read()
+    if old != manifest:
+        with open(mpath, 'w') as fh:
+            fh.write(manifest)
+        # a lock file written for another tree may name other dependency versions
+        try:
+            os.remove(os.path.join(work, 'Cargo.lock'))
+        except OSError:
+            pass
+    env = dict(os.environ)
+    env['CARGO_NET_OFFLINE'] = 'true'
+    target = os.path.join(extract.CACHE, 'replay-target')
+    env['CARGO_TARGET_DIR'] = target
+    flags = env.get('RUSTFLAGS', '')
+    if _has_hook(ffuzzy) and 'a4lg_ffuzzy_verif' not in flags:
+        flags = (flags + ' --cfg a4lg_ffuzzy_verif').strip()
+    if flags:
+        env['RUSTFLAGS'] = flags
+    try:
+        p = subprocess.run(['cargo', 'build', '--release', '--offline', '--quiet', '--manifest-path', mpath],
+                           env=env, stdout=subprocess.PIPE, stderr=subprocess.PIPE, text=True, timeout=900)
+    except subprocess.TimeoutExpired:
+        return None, 'concretiser build timed out'
+    if p.returncode != 0:
+        errs = [l for l in p.stderr.split('\n') if l.startswith('error')]
+        return None, 'concretiser did not build against this tree: ' + (' | '.join(errs[:4]) or p.stderr[-400:].replace('\n', ' '))
+    binary = os.path.join(target, 'release', 'replay')
+    if not os.path.exists(binary):
+        return None, 'concretiser built but %s is missing' % binary
+    return binary, 'built against %s' % ffuzzy
+
+
+def run(binary, args, timeout):
+    try:
+        p = subprocess.run([binary] + [str(a) for a in args], stdout=subprocess.PIPE, stderr=subprocess.PIPE,
+                           text=True, errors='replace', timeout=timeout)
+    except subprocess.TimeoutExpired:
+        return None
+    return p
 
 
 def find_failing_input(pid, violations, tier, seed):
-    rdir = os.path.join(VERIF, 'replay')
-    if not os.path.exists(os.path.join(rdir, 'Cargo.toml')):
-        return {'found': False, 'note': 'no concretiser built'}
+    """violations: the failed obligations (unused for the search itself: the replay program
+    explores the whole property).  Returns {'found': True, 'text': ...} or
+    {'found': False, 'note': ...}."""
     budget = 20 if tier == 'quick' else 300
-    work = os.path.join(extract.CACHE, 'replay-work')
-    os.makedirs(work, exist_ok=True)
-    env = dict(os.environ)
-    env['CARGO_NET_OFFLINE'] = 'true'
-    env['CARGO_TARGET_DIR'] = os.path.join(extract.CACHE, 'replay-target')
-    env['VERIF_FFUZZY_PATH'] = os.path.join(extract.REPO, 'ffuzzy')
-    env['RUSTFLAGS'] = (env.get('RUSTFLAGS', '') + ' --cfg a4lg_ffuzzy_verif').strip()
-    # the replay crate depends on the working tree by path (REPO/ffuzzy); build fresh
-    manifest = os.path.join(rdir, 'Cargo.toml')
-    try:
-        p = subprocess.run(['cargo', 'run', '--offline', '--release', '--quiet', '--manifest-path', manifest, '--',
-                            pid, str(seed), str(budget)], env=env, stdout=subprocess.PIPE, stderr=subprocess.PIPE,
-                           text=True, timeout=budget + 600)
-    except subprocess.TimeoutExpired:
+    binary, note = build()
+    if binary is None:
+        return {'found': False, 'note': note}
+    p = run(binary, [pid, int(seed) & 0xFFFFFFFFFFFFFFFF, budget], budget + 120)
+    if p is None:
         return {'found': False, 'note': 'concretiser timed out'}
     out = p.stdout
     if 'FAILING-INPUT' in out:
         return {'found': True, 'text': out[out.index('FAILING-INPUT'):][:6000]}
     if p.returncode != 0:
-        return {'found': False, 'note': 'concretiser did not build/run against this tree: ' + p.stderr[-400:].replace('\n', ' ')}
-    return {'found': False, 'note': 'concretiser explored ' + (out.strip().split('\n')[-1][:200] if out.strip() else '0 inputs')}
+        return {'found': False, 'note': 'concretiser crashed (exit %d): %s' % (p.returncode, (p.stderr or out)[-400:].replace('\n', ' '))}
+    last = out.strip().split('\n')[-1][:200] if out.strip() else 'explored 0 inputs'
+    return {'found': False, 'note': 'concretiser ' + last}
+
+
+def main(argv):
+    if len(argv) >= 2 and argv[1] == '--selftest':
+        binary, note = build()
+        if binary is None:
+            print(note)
+            return 2
+        per = argv[2] if len(argv) > 2 else '2'
+        p = run(binary, ['--selftest', per], 20 * float(per) + 600)
+        if p is None:
+            print('selftest timed out')
+            return 2
+        sys.stdout.write(p.stdout)
+        return p.returncode
+    if len(argv) < 2:
+        print(__doc__)
+        return 2
+    tier = argv[2] if len(argv) > 2 else 'quick'
+    seed = int(argv[3]) if len(argv) > 3 else int(os.environ.get('VERIF_SEED', '0') or 0)
+    r = find_failing_input(argv[1], [], tier, seed)
+    print(r.get('text') or r.get('note'))
+    return 0
+
+
+if __name__ == '__main__':
+    sys.exit(main(sys.argv))
